@@ -113,6 +113,8 @@ def cases(tier, seed):
                     out.append({'kind': 'smooth', 'seed': s, 'params': {'fn': name, 'prm': list(prm), 'x': x, 'cls': cls, 'nmax': nm}})
             if name in ('arctan', 'arcsinh', 'reciprocal', 'log', 'sqrt', 'log1p', 'log2', 'log10'):
                 out.append({'kind': 'largearg', 'seed': case_seed('C16', seed, 'largearg', name), 'params': {'fn': name}})
+            if name in ('arctanh', 'arctan', 'arcsinh', 'arcsin', 'sin', 'sinh', 'erf', 'erfi', 'expm1', 'log1p'):
+                out.append({'kind': 'nearzero', 'seed': case_seed('C16', seed, 'nearzero', name), 'params': {'fn': name}})
             if name in HIGH_ORDER_FNS:
                 out.append({'kind': 'highorder', 'seed': case_seed('C16', seed, 'highorder', name), 'params': {'fn': name, 'nmax': 30 if tier == 'quick' else 40}})
             if name == 'hyperu':
@@ -190,6 +192,26 @@ def run_case(ctx, case):
                 if not rel <= 1e-9:
                     ctx.violation('%s:large-argument:relative-accuracy' % name, {'fn': name, 'x': x, 'n': n, 'got': got, 'want': mp.nstr(ref, 17), 'relative_error': float(rel) if rel != mp.inf else 'inf'}); break
                 ctx.ok(name, (name, 'largearg', n, x))
+        return
+    if case['kind'] == 'nearzero':
+        # odd-like functions close to (not at) their zero: the even derivatives are small there (f''(x) ~ f'''(0) x) and a series cut
+        # off after its leading term, or a difference of nearly equal powers, is right in absolute and wrong in relative terms
+        mk, dist, dom = TABLE[name]
+        mf = mk()
+        for x in (3e-5, 6e-5, 9e-5, -7e-5, 2e-4, 1e-3):
+            for n in range(0, 9):
+                try:
+                    got = float(np.asarray(f(np.array([x]), n=n)).reshape(-1)[0])
+                    with mp.workdps(80):
+                        ref = +mp.diff(mf, mp.mpf(x), n)
+                except Exception as e:
+                    ctx.skip('reference-unavailable:nearzero'); continue
+                if ref == 0:
+                    continue
+                rel = abs(mp.mpf(got) - ref) / abs(ref) if np.isfinite(got) else mp.inf
+                if not rel <= 2e-9:
+                    ctx.violation('%s:near-zero:relative-accuracy' % name, {'fn': name, 'x': x, 'n': n, 'got': got, 'want': mp.nstr(ref, 17), 'relative_error': float(rel) if rel != mp.inf else 'inf'}); break
+                ctx.ok(name, (name, 'nearzero', n, x))
         return
     if case['kind'] == 'highorder':
         # orders 12 ... 30 (40) in the interior of the domain, where these functions are well conditioned: RELATIVE accuracy (the
